@@ -73,9 +73,11 @@ theorem hNextStep_le_hmax (P : HParams K n) (hp : P.posneg * P.posneg = 1) (hnew
 end
 end Ctl
 
+/-! ### structure of a pass, `Success` only at `xend` — for every instance of `Num` (the floating-point one included):
+    nothing below uses arithmetic, the landing step sets the new time to `xend` itself -/
 namespace Ctl
-noncomputable section
-variable {K : Type} [Field K] [LinearOrder K] [IsStrictOrderedRing K] [SqrtPow K] {n : Nat}
+section
+variable {K : Type} [Num K] {n : Nat}
 
 theorem hAccepted_cases {σ : Type} (P : HParams K n) (Kn : HKernel K n) (f : Rhs K n) (ob : Obs σ K n)
     (s : HState σ K n) (h : K) (last : Bool) (T : HTrial K n Kn.S) :
@@ -167,6 +169,13 @@ theorem hLoop_success_at_xend {σ : Type} (P : HParams K n) (Kn : HKernel K n) (
       exact hIter_success_at_xend P Kn f ob s hl r' heq hs
     · rename_i s' heq
       exact ih s' (hIter_last P Kn f ob s s' heq) r h hs
+
+end
+end Ctl
+
+namespace Ctl
+noncomputable section
+variable {K : Type} [Field K] [LinearOrder K] [IsStrictOrderedRing K] [SqrtPow K] {n : Nat}
 
 /-- DOPRI5 and DOP853 parameters have the Hairer guard -/
 theorem dopri5Params_guard (L : HLits K) (xend posneg uround safety smin smax beta hmax : K) (nmax nstiff : Nat) (d : Bool) :
